@@ -14,6 +14,9 @@ lane() {
   for d in seeded/*/; do
     [ "$(jq -r .property "$d/meta.json")" = "$ID" ] || continue
     name=$(basename "$d")
+    if [ "$(jq -r '.superseded_by_fix // ""' "$d/meta.json")" != "" ]; then
+      echo "{\"skipped\": \"superseded by fix $(jq -r .superseded_by_fix "$d/meta.json"): the change is fail-closed on the repaired tree\"}" > "$d/sweep.json"; echo "$name: skipped (superseded)"; continue
+    fi
     WT=/tmp/seedsweep-$ID
     git -C /repo worktree remove --force "$WT" 2>/dev/null
     git -C /repo worktree add -q --detach "$WT" HEAD || { echo "$name: worktree failed"; continue; }
